@@ -228,6 +228,10 @@ class GrammarSemantics(ModelBuilderSemantics):
         directives = {d.name: d.value for d in flatten(ast.directives) if d}
         for value in directives.values():
             literal_eval(repr(value))
+        for name in ('whitespace', 'comments', 'eol_comments'):
+            # NOTE: @@whitespace also takes a plain string, which must be a valid pattern too
+            if isinstance(value := directives.get(name), str) and value:
+                self._validate_pattern(value)
         keywords = tuple(flatten(ast.keywords)) or ()
 
         if directives.get('whitespace') in {'None', 'False'}:
